@@ -86,7 +86,11 @@ func genC05(seed uint64, tier string, idx int) *Plan {
 						if g.r.chance(10) {
 							no = 65535
 						}
-						bad := g.mkSubFrame(ci, id, g.randSerial(), uint16(total), no, g.body(1+g.r.intn(20), 2))
+						badTotal := uint16(total)
+						if no > uint16(total) && no != 65535 && g.r.chance(40) {
+							badTotal = no + uint16(g.r.intn(3)) // a straggler of a longer transfer: its own header claims a larger total
+						}
+						bad := g.mkSubFrame(ci, id, g.randSerial(), badTotal, no, g.body(1+g.r.intn(20), 2))
 						bad.Xfer = -xi
 						withBad = append(withBad, bad)
 						g.p.Faults = append(g.p.Faults, "pkt.bad_number")
